@@ -29,7 +29,7 @@ func init() {
 
 func runC18(c *Ctx) {
 	p := c.Progs["mod"]
-	c.Rule("C18.L", "liveness gate", 9)
+	c.Rule("C18.L", "liveness gate", 10)
 	c.Rule("C18.F", "shared fallback only when the user has no match", 3)
 	c.Rule("C18.N", "lookup by the request path; 404 when it fails", 2)
 	c.Rule("C18.S", "shape of the most-specific-prefix selection", 7)
@@ -99,7 +99,7 @@ func runC18(c *Ctx) {
 					if v == since[0].(ssa.Value) {
 						return IntC(d), true
 					}
-					if len(f.Params) == 4 && v == ssa.Value(ParamAt(f, 3)) {
+					if prm := ParamAt(f, 3); prm != nil && v == ssa.Value(prm) {
 						return IntC(1000), true
 					}
 					if bo, ok := v.(*ssa.BinOp); ok && (bo.Op == token.NEQ || bo.Op == token.EQL) && IsNilConst(bo.Y) && bo.X == ls[0].(ssa.Value) {
@@ -160,6 +160,53 @@ func runC18(c *Ctx) {
 		}
 	}
 	// the tracker is refreshed by the agent's list call
+	// the poll records the backend as seen before it returns, under the caller's own context
+	if f := c.need(p, "C18.L", "app/store.(*persistentStore).ListPendingRequests"); f != nil {
+		var site ssa.Instruction
+		var owner *ssa.Function
+		for _, fn := range WithClosures(f) {
+			for _, call := range Calls(fn, "(*"+sp+".persistentStore).registerBackendAsSeen") {
+				site, owner = call, fn
+			}
+		}
+		if site == nil {
+			c.Bad("C18.L", "poll:records-seen-before-returning", p, f.Pos(), "the store's ListPendingRequests no longer calls registerBackendAsSeen: a polling agent is never recorded as live")
+		} else {
+			why := ""
+			if _, isCall := site.(*ssa.Call); !isCall {
+				why = "registerBackendAsSeen is started with go/defer"
+			}
+			if owner != f && Owner(site) != f {
+				// in a goroutine of its own: the function waits for it on every path to a return
+				waits := Calls(f, "(*sync.WaitGroup).Wait")
+				done := false
+				EachInstrRaw(owner, func(i ssa.Instruction) {
+					if IsCall(i, "(*sync.WaitGroup).Done") {
+						done = true
+					}
+				})
+				awaited := done && len(waits) > 0
+				if awaited {
+					miss, _ := (&Walk{Target: func(i ssa.Instruction) bool {
+						r, isR := i.(*ssa.Return)
+						return isR && r.Parent() == f
+					}, Avoid: func(i ssa.Instruction) bool { return IsCall(i, "(*sync.WaitGroup).Wait") }, Local: true}).FromBlock(f.Blocks[0])
+					awaited = miss == nil
+				}
+				if !awaited {
+					why = "the goroutine that records the backend as seen is not awaited (WaitGroup.Done in it, Wait on every path to a return)"
+				}
+			}
+			// the context it runs under is the caller's, not one this call cancels when it returns
+			ctxArg := Args(CallOf(site))[1]
+			for _, r := range Roots(ctxArg) {
+				if CallResult(r, 0, "context.WithCancel", "context.WithTimeout", "context.WithDeadline") != nil {
+					why = "registerBackendAsSeen runs under a context derived (and cancelled) by ListPendingRequests itself"
+				}
+			}
+			c.Check("C18.L", "poll:records-seen-before-returning", p, site.Pos(), why == "", "ListPendingRequests returns only after registerBackendAsSeen has run, under the caller's context", why+": the tracker write is abandoned whenever the query finishes first — an agent that polls continuously is not recorded as live and its users get 404")
+		}
+	}
 	if f := c.need(p, "C18.L", "app/store.(*persistentStore).registerBackendAsSeen"); f != nil {
 		if nk := c.UniqueCall("C18.L", p, f, false, "google.golang.org/appengine/v2/datastore.NewKey"); nk != nil {
 			a := PArgs(CallOf(nk))
@@ -432,7 +479,7 @@ func runC18(c *Ctx) {
 	// ---- C18.C
 	{
 		sub := NewCtx("tmp", c.Progs)
-		c17Sibling(sub, p)
+		c17Sibling(sub, p, "C17.S")
 		for _, o := range sub.Obs {
 			if strings.HasSuffix(o.Key, "cachingStore.LookupBackend") || strings.HasSuffix(o.Key, "cachingStore:stateless") {
 				o.Rule = "C18.C"
